@@ -17,6 +17,8 @@ def _c01():
 
 
 REPLAY_SRC = r'''
+#include <algorithm>
+#include <vector>
 // Native replay for C10 write-back obligations: the REAL NudgingShiftSegment (file-local class of orthogonal.cpp, reached
 // by including that translation unit) writes solver positions into a real connector's display route.
 #include "libavoid/orthogonal.cpp"
@@ -80,6 +82,29 @@ int main() {
     }
     router->processTransaction();
     if (router->existsOrthogonalSegmentOverlap()) { printf("bridge scene, creation order %d%d%d: two connectors run collinear after nudging although the channel is 60 wide and the nudging distance is 4\n", P[perm][0], P[perm][1], P[perm][2]); bad++; }
+    delete router;
+  }
+  // checkpoints stay on their routes: a connector with a checkpoint in the interior of a segment next to an S (or, mirrored, Z) bend that shares
+  // its corridor with a second connector
+  for (int mirror = 0; mirror < 2; ++mirror) {
+    Router *router = new Router(OrthogonalRouting);
+    router->setRoutingParameter(segmentPenalty, 50); router->setRoutingParameter(idealNudgingDistance, 10);
+    const double CX[4] = {500, 150, 500, 150}, CY[4] = {100, 300, 200, 400};
+    for (int k = 0; k < 4; ++k) { double cx = mirror ? 650.0 - CX[k] : CX[k]; Rectangle r(Point(cx - 20, CY[k] - 20), Point(cx + 20, CY[k] + 20)); new ShapeRef(router, r, 1 + k); }
+    ConnDirFlags leave = mirror ? ConnDirRight : ConnDirLeft, arrive = mirror ? ConnDirLeft : ConnDirRight;
+    #define MXX(x) (mirror ? 650.0 - (x) : (x))
+    ConnRef *A = new ConnRef(router, ConnEnd(Point(MXX(500), 100), leave), ConnEnd(Point(MXX(150), 300), arrive), 11);
+    new ConnRef(router, ConnEnd(Point(MXX(500), 200), leave), ConnEnd(Point(MXX(150), 400), arrive), 12);
+    Point cp(MXX(300), 100);
+    std::vector<Checkpoint> cps; cps.push_back(Checkpoint(cp, arrive, leave)); A->setRoutingCheckpoints(cps);
+    router->processTransaction();
+    const PolyLine& rt = A->displayRoute(); bool on = false;
+    for (size_t i = 1; i < rt.size(); ++i) {
+      const Point &a = rt.ps[i - 1], &b = rt.ps[i];
+      if (cp.x >= std::min(a.x, b.x) - 1e-9 && cp.x <= std::max(a.x, b.x) + 1e-9 && cp.y >= std::min(a.y, b.y) - 1e-9 && cp.y <= std::max(a.y, b.y) + 1e-9) on = true;
+    }
+    if (!on) { printf("%s scene: after nudging the route no longer passes through its checkpoint (%g,%g):", mirror ? "mirrored (Z-bend)" : "S-bend", cp.x, cp.y);
+      for (size_t i = 0; i < rt.size(); ++i) printf(" (%g,%g)", rt.ps[i].x, rt.ps[i].y); printf("\n"); bad++; }
     delete router;
   }
   if (bad) { printf("REPRODUCED: %d violation(s)\n", bad); return 1; }
@@ -191,6 +216,24 @@ def jobs(tier):
                   domain="every list of up to 4 segments and every symmetric overlap relation (overlapsWith behind an arbitrary relation)",
                   expect=[r'h_region\.assertion', r'unwind'], replay=replay_c10,
                   note="std::list modelled by an array-backed stub (stubs/bounded/list); the fragment re-derives its iterator after every erase"))
+    # ---- buildOrthogonalNudgingSegments: the channel limits of a middle segment -- checkpoints on the adjoining segments and the span of an S/Z bend
+    #      are all respected (a limit, once imposed, is never loosened), so nudging cannot pull a neighbouring segment past its checkpoint
+    bons = slice_func(OC, r'^static void buildOrthogonalNudgingSegments\(Router \*router,', "buildOrthogonalNudgingSegments")
+    lim = fragment_between(bons, r'// The segment probably has space to be shifted\.\s*double minLim = -CHANNEL_MAX;', r'NudgingShiftSegment \*nss = new NudgingShiftSegment\(\*curr,\s*indexLow, indexHigh, isSBend, isZBend, dim,',
+                           "buildOrthogonalNudgingSegments [channel limits of a middle segment]")
+    cmax = slice_lines("libavoid/scanline.h", r'^static const double CHANNEL_MAX = \d+;', 1, "CHANNEL_MAX")
+    lim_cxx = ("#include <verif_base.h>\n#include <vector>\n#include <algorithm>\n" + pt_pre + poly_pre + "namespace Avoid {\n" + cmax.text + "\n" + idx_text + "\n"
+               "// the fragment's free variables become parameters, with the types they have in buildOrthogonalNudgingSegments; its results are handed out\n"
+               "static void verif_limits(std::vector<Point>& nextCheckpoints, std::vector<Point>& prevCheckpoints, std::vector<Point>& checkpoints, double thisPos, size_t dim,\n"
+               "        Polygon& displayRoute, size_t i, double *outMin, double *outMax, int *outS, int *outZ)\n{\n" + lim.text +
+               "\n    *outMin = minLim; *outMax = maxLim; *outS = isSBend ? 1 : 0; *outZ = isZBend ? 1 : 0;\n}\n}\n"
+               'extern "C" void w_limits(void *nextCp, void *prevCp, void *cp, double thisPos, size_t dim, void *route, size_t i, double *outMin, double *outMax, int *outS, int *outZ) {\n'
+               "  Avoid::verif_limits(*(std::vector<Avoid::Point> *)nextCp, *(std::vector<Avoid::Point> *)prevCp, *(std::vector<Avoid::Point> *)cp, thisPos, dim, *(Avoid::Polygon *)route, i, outMin, outMax, outS, outZ); }\n")
+    js.append(Job("channel_limits_respect_checkpoints_and_bends", "B", spec, "h_limits", cxx=lim_cxx, defines=["JOB_limits"], slices=[bons, lim, cmax, idx1], unwind=8,
+                  flags=["--sat-solver", "cadical"], backend="sat:cadical", replay=replay_c10, timeout=600,
+                  bound="at most 2 checkpoints on each adjoining segment and on the segment itself (loops unwound 8 times with unwinding assertions); all doubles that are numbers",
+                  domain="every position of the segment, its neighbours and up to 2+2 checkpoints, both dimensions, with and without checkpoints on the segment itself",
+                  expect=[r'h_limits\.assertion']))
     return js
 
 
@@ -205,6 +248,8 @@ ASSUMPTIONS = [
     "this is the only place nudging writes a route (by inspection of orthogonal.cpp: the other writers are the router's own path-setting code)",
     "region_closed_under_overlap is a BOUNDED stand-in (at most 4 segments, std::list modelled by an array-backed stub, overlapsWith an arbitrary symmetric relation): "
     "the region handed to the solver is the reference segment's whole component under 'overlaps'",
+    "channel_limits_respect_checkpoints_and_bends is a BOUNDED stand-in (up to 2 checkpoints per list; coordinates within +-CHANNEL_MAX): the limits imposed by checkpoints on "
+    "the adjoining segments and by an S/Z bend's span all hold together for the limits handed to NudgingShiftSegment",
     "NOT decided (residue): which segments are built fixed, ordering of shared paths (PtOrderMap), channel computation (min/maxSpaceLimit), the constraints generated inside a region, the resulting separation, checkpoints staying on routes",
 ]
 EXPLANATION = ("Write-back kernel of nudging under contract: a fixed segment writes nothing (empty frame); the written position is the solver position clamped into "
